@@ -50,7 +50,9 @@ def history_stream(run, n_cases):
                 if what == "mut":
                     for _try in range(20):
                         name, args, f = O.gen_mut_op(rng, shape, csd, tuple(shape[1:]), shape[0] if shape else 1)
-                        if isinstance(f, tuple) or name in ("update_lazy", "del_", "rename_key_", "pop", "popitem", "set_key", "set_nested", "update"):
+                        if isinstance(f, tuple) or name in ("update_lazy", "del_", "rename_key_", "pop", "popitem", "set_key", "set_nested", "update",
+                                                             "setdefault_new", "setdefault_old", "clear", "update_keys", "apply_inplace",
+                                                             "named_apply_inplace", "load_state_dict"):
                             continue       # value writes only: the key set stays what the generators expect
                         if name in ("update_at_", "set_at_") and "ell" in str(args):
                             continue       # the DENSE update_at_/set_at_ index the leaves with the raw Ellipsis (C03's subject)
